@@ -38,8 +38,8 @@ def family_of(case, ob):
     base = case.name.split("[")[0]
     m = ob.meta
     if m["what"] == "output":
-        return "%s output %s depends on pre-state path{%s}" % (base, m["of"], m["path"])
-    return "%s partial d(%s)/d(%s) depends on pre-state path{%s}" % (base, m["of"], m["wrt"], m["path"])
+        return "%s output %s depends on pre-state path{%s}" % (base, m["of"], c01.stable_path(m["path"]))
+    return "%s partial d(%s)/d(%s) depends on pre-state path{%s}" % (base, m["of"], m["wrt"], c01.stable_path(m["path"]))
 
 
 def replay_point(case, env, meta, tol=1e-9):
